@@ -23,6 +23,17 @@ CHECKS = {
         design="DESIGN.md 3 C08"),
 }
 
+CHECKS["C03"] = dict(
+    technique="Coq proof (flag half): non-interference theorem instantiated with a zero-length permutation array, vm_compute per exported kernel; real-C search over all permutation codes for a material difference",
+    text="Per exported kernel flagged needs_facet_permutations=false, for ALL inputs: the kernel never reads quadrature_permutation, hence the result is independent of it (theorem C03_unflagged_kernel_ignores_permutation). The numbering-invariance half (permutation family = facet symmetry group, physical points coincide) is not yet proved in this development: partial.",
+    note="Coq kernel+VM; exporter; DOLFINx's computation of permutation codes outside FFCx; numbering-invariance half pending",
+    design="DESIGN.md 3 C03")
+CHECKS["C19"] = dict(
+    technique="Coq proof: scoping/typing progress theorem per exported kernel (vm_compute), finite exhaustive theorem over the rule-id table regenerated from /repo; gcc -std=c17 on every accepted case; rejection stream",
+    text="Per exported kernel: every identifier declared once per C scope, before use, in scope (C name resolution done by the exporter, redeclaration/unbound detected by the proven checker). Exhaustive over cells x degree 0..30 x schemes x polyset types x vertex scheme: equal rule ids imply equal points and weights. Every accepted corpus case is compiled by gcc; unsupported constructs must raise before the compiler.",
+    note="Coq kernel+VM; exporter name resolution; gcc as arbiter of C17 validity; SHA-1 collision-free on the enumerated rules; forms sampled",
+    design="DESIGN.md 3 C19")
+
 ALL = [f"C{i:02d}" for i in range(1, 21)]
 
 NOT_YET = "check not built yet in this session (work in progress; see DESIGN.md section 6 for the order of construction)"
